@@ -3,6 +3,7 @@ package rules
 import (
 	"fmt"
 	"go/token"
+	"go/types"
 	"sort"
 	"strings"
 
@@ -30,7 +31,11 @@ func tsSourcesX(fn *ssa.Function, v ssa.Value, ref ssa.Value, calls func(c *ssa.
 		seen[v] = true
 		switch x := v.(type) {
 		case *ssa.Phi:
-			for _, e := range x.Edges {
+			skip := correlatedDeadEdges(x)
+			for i, e := range x.Edges {
+				if skip[i] {
+					continue
+				}
 				rec(e)
 			}
 			return
@@ -527,4 +532,78 @@ func c03Client(p *ana.Prog, r *ana.Result, name string, scion bool) {
 	} else {
 		r.Violate("C03.socket", fname, "fresh-ephemeral-socket", posOf(p, lps[0]), fmt.Sprintf("the exchange does not use its own ephemeral socket (port 0=%v, closed on return=%v): a delayed response to an earlier exchange can be received and matched by a later one", okPort, closed))
 	}
+}
+
+// correlatedDeadEdges: a value merged together with a boolean flag (`v, ok` of an inlined helper)
+// and used only where the flag is known to hold cannot take the inputs on which the flag is the
+// opposite constant. Returns the indices of such inputs of x.
+func correlatedDeadEdges(x *ssa.Phi) map[int]bool {
+	out := map[int]bool{}
+	blk := x.Block()
+	var uses []*ssa.BasicBlock
+	for _, ref := range ana.Referrers(x) {
+		if _, isDbg := ref.(*ssa.DebugRef); isDbg {
+			continue
+		}
+		if ph, isPhi := ref.(*ssa.Phi); isPhi {
+			// used as a merge input: the use happens at the end of the corresponding predecessor
+			for i, e := range ph.Edges {
+				if e == ssa.Value(x) {
+					uses = append(uses, ph.Block().Preds[i])
+				}
+			}
+			continue
+		}
+		uses = append(uses, ref.Block())
+	}
+	if len(uses) == 0 {
+		return out
+	}
+	for _, in := range blk.Instrs {
+		q, ok := in.(*ssa.Phi)
+		if !ok {
+			break
+		}
+		if q == x || len(q.Edges) != len(x.Edges) {
+			continue
+		}
+		if b, isB := q.Type().Underlying().(*types.Basic); !isB || b.Kind() != types.Bool {
+			continue
+		}
+		for _, g := range blk.Parent().Blocks {
+			if len(g.Instrs) == 0 {
+				continue
+			}
+			iff, isIf := g.Instrs[len(g.Instrs)-1].(*ssa.If)
+			if !isIf {
+				continue
+			}
+			for si := 0; si < 2; si++ {
+				s := g.Succs[si]
+				if len(s.Preds) != 1 {
+					continue
+				}
+				for _, a := range ana.Implied(iff.Cond, si == 0) {
+					if a.V != ssa.Value(q) {
+						continue
+					}
+					all := true
+					for _, u := range uses {
+						if !(s == u || s.Dominates(u)) {
+							all = false
+						}
+					}
+					if !all {
+						continue
+					}
+					for i, e := range q.Edges {
+						if cb, isC := ana.ConstBool(e); isC && cb != a.Holds {
+							out[i] = true
+						}
+					}
+				}
+			}
+		}
+	}
+	return out
 }
